@@ -306,6 +306,8 @@ func StdData(r *rand.Rand) val.V {
 		{K: "fnums", V: val.Fn("nums")}, {K: "fstrs", V: val.Fn("strs")}, {K: "fctx", V: val.Fn("ctx")}, {K: "fnoret", V: val.Fn("noret")},
 		{K: "fone", V: val.Fn("one")}, {K: "fpanic", V: val.Fn("panic")}, {K: "fnildec", V: val.Fn("retnildec")}, {K: "fnilptr", V: val.Fn("retnilptr")}, {K: "fanys", V: val.Fn("anys")}, {K: "ftime", V: val.Fn("time")}, {K: "fmap", V: val.Fn("mapf")}, {K: "fcurry", V: val.Fn("curry")},
 	}
+	// decimals built by the host without a context (mantissa and scale) and in a 60-digit context of its own
+	kv = append(kv, val.KV{K: "draw", V: val.V{K: "decraw", S: "-12345678901234567.89"}}, val.KV{K: "d60", V: val.V{K: "dec60", S: "1234567890123456789012345678901234567890123.5"}})
 	// odd kinds under fixed names
 	kv = append(kv, val.KV{K: "x0", V: val.RandValue(r, 2)}, val.KV{K: "x1", V: val.RandValue(r, 3)}, val.KV{K: "x2", V: val.RandScalar(r)}, val.KV{K: "odd", V: val.OddKind(r)}, val.KV{K: "odd2", V: val.OddKind(r)})
 	return val.Map(kv...)
